@@ -164,6 +164,7 @@ def fault_sites(prog):
         res.append(("dup-send", i, "other-payload"))
         res.append(("dup-send", i, "same-payload"))
         res.append(("dup-send", i, "sibling"))
+        res.append(("dup-send", i, "in-payload"))
         res.append(("dup-recv", i, None))
         res.append(("retag-send", i, None))
         res.append(("retag-recv", i, None))
@@ -206,6 +207,14 @@ def apply_fault(prog, fault):  # noqa: C901
         elif var == "same-payload":
             # the same send object stapled twice (onto different results): one send by value semantics
             rewrite(src, lambda t: ["send", t[1], t[2], t[3], ["bin", "mul", t, ["py", 1.0]]] if _is_op_send(t, op) else t)
+        elif var == "in-payload":
+            # the holder of a second, different send with the same id sits inside the payload of the first
+            def fnp(t):
+                if _is_op_send(t, op):
+                    dup = ["send", ["bin", "add", t[1], ["py", 11.0]], t[2], t[3], distspace.inp(src)]
+                    return ["send", ["bin", "add", t[1], ["bin", "mul", dup, ["py", 0.0]]], t[2], t[3], t[4]]
+                return t
+            rewrite(src, fnp)
         else:
             # a second, different send with the same id in a sibling sub-expression (not chained by passthrough)
             def fn(t):
